@@ -45,6 +45,7 @@ structure St where
   l2it : Std.HashMap String L2It := {}        -- L2 iterator state machines running next to `it` (names created by `l2it`)
   l2uit : Std.HashMap String RModel.Impl.It.UnsetIt := {}   -- L2 unset iterators (names created by `l2it unset`)
   l2it64 : Std.HashMap String L2It64 := {}    -- L2 roaring64 iterators running next to `it64` (names created by `l2it64`)
+  byteIn : Option (String × List String) := none   -- last `bytein buf` line: (digest of data + ops, Go's tokens), see Driver/ByteIn.lean
   deriving Inhabited
 
 /-- result of checking a line: `none` = agrees -/
